@@ -101,7 +101,7 @@ def leak_sites(text):
     for blk in re.split(r"\n(?=(?:Direct|Indirect) leak of)", text):
         if not blk.startswith(("Direct leak", "Indirect leak")):
             continue
-        fr = re.findall(r"#\d+ 0x[0-9a-f]+ in (\S+) /repo/src/ksi/(\S+?):\d+", blk)
+        fr = re.findall(r"#\d+ 0x[0-9a-f]+ in (\S+) \S*/src/ksi/(\S+?):\d+", blk)
         fr = [f for f, _ in fr if f not in ("KSI_malloc", "KSI_calloc")]
         if fr:
             sites.append(("D:" if blk.startswith("Direct") else "I:") + "<".join(fr[:3]))
@@ -332,7 +332,7 @@ def run(chk, tier, seed):
             kind = "crash" if e["outcome"] == "crash" else "wrong-result" if e["outcome"] == "wrong" else "unreached-fault-changed-result" if not e["hit"] else "success-with-different-result"
             site = ""
             if kind == "crash":
-                fr = [f for f in re.findall(r"#\d+ 0x[0-9a-f]+ in (\S+) /repo/src/ksi/", e.get("got", "")) if f not in ("KSI_free", "KSI_malloc")]; site = ":" + "<".join(fr[:2]) if fr else ""
+                fr = [f for f in re.findall(r"#\d+ 0x[0-9a-f]+ in (\S+) \S*/src/ksi/", e.get("got", "")) if f not in ("KSI_free", "KSI_malloc")]; site = ":" + "<".join(fr[:2]) if fr else ""
             if kind == "wrong-result":
                 mm = re.search(r"res=(\S+) code=(\S*)", e.get("got", "")); site = (":verdict-%s-%s-without-error" % ({"0": "OK", "1": "NA", "2": "FAIL"}.get(mm.group(1), mm.group(1)), mm.group(2) or "none")) if mm else ""
             chk.violation("%s:%s%s" % (kind, m["op"], site), "%s: %s\n%s" % (kind, where, e.get("got", "")[-1500:]), dict(event=e, op=m["op"]))
